@@ -232,6 +232,44 @@ fn gen_lkh(rng: &mut Rng, cases: &mut Vec<Value>, count: usize, max_n: usize) {
     }
 }
 
+/// Euclidean instances: integer points (duplicates and mirror-symmetric layouts on purpose), costs are the f64 square
+/// roots the solver's own cost matrix would hold, neighbour lists by distance. With such costs the gain of a move is a
+/// rounded running sum: a swap of two nodes with equal costs to their tour neighbours has real gain 0 and now and then a
+/// rounding-positive one - in both directions (S50)
+fn gen_lkh_pts(rng: &mut Rng, cases: &mut Vec<Value>, count: usize, max_n: usize) {
+    for idx in 0..count {
+        let n = rng.usize(4, max_n);
+        let mut pts: Vec<(i64, i64)> = vec![];
+        while pts.len() < n {
+            match rng.below(6) {
+                // a duplicate of an earlier point (two stops at one address)
+                0 if !pts.is_empty() => pts.push(*rng.pick(&pts)),
+                // the mirror image of an earlier point (equal distances to points on the axis)
+                1 if !pts.is_empty() => {
+                    let p = *rng.pick(&pts);
+                    pts.push((-p.0, p.1));
+                }
+                // a point on the axis
+                2 => pts.push((0, rng.range(-20, 20))),
+                _ => pts.push((rng.range(-50, 50), rng.range(-50, 50))),
+            }
+        }
+        let mut path: Vec<usize> = (0..n).collect();
+        if idx % 3 == 0 {
+            rng.shuffle(&mut path);
+        }
+        let sq = |a: (i64, i64), b: (i64, i64)| (a.0 - b.0) * (a.0 - b.0) + (a.1 - b.1) * (a.1 - b.1);
+        let nb: Vec<Vec<usize>> = (0..n)
+            .map(|i| {
+                let mut others: Vec<usize> = (0..n).filter(|&j| j != i).collect();
+                others.sort_by_key(|&j| (sq(pts[i], pts[j]), j));
+                others
+            })
+            .collect();
+        cases.push(json!({"k": "lkh_pts", "path": path, "pts": pts.iter().map(|p| json!([p.0, p.1])).collect::<Vec<_>>(), "nb": nb}));
+    }
+}
+
 fn gen_dbscan(rng: &mut Rng, cases: &mut Vec<Value>, count: usize, max_n: usize) {
     for idx in 0..count {
         let n = match rng.below(10) {
@@ -411,6 +449,8 @@ fn gen_cases(rng: &mut Rng, tier: Tier) -> Vec<Value> {
     gen_dbscan(rng, &mut cases, 1500 * scale, if thorough { 16 } else { 12 });
     gen_kmed(rng, &mut cases, 700 * scale, if thorough { 14 } else { 10 });
     gen_hier(rng, &mut cases, 500 * scale, if thorough { 20 } else { 14 });
+    // last, so that the streams above stay what they were
+    gen_lkh_pts(rng, &mut cases, 600 * scale, if thorough { 14 } else { 9 });
     cases
 }
 
@@ -451,17 +491,47 @@ impl AdjacencySpec for Adjacency {
     }
 }
 
+struct EuclidAdjacency {
+    c: Vec<Vec<f64>>,
+    nb: Vec<Vec<Node>>,
+}
+
+impl AdjacencySpec for EuclidAdjacency {
+    fn cost(&self, edge: &Edge) -> Cost {
+        // as the solver's cost matrix does: one stored value per unordered pair
+        let (a, b) = if edge.0 > edge.1 { (edge.1, edge.0) } else { (edge.0, edge.1) };
+        self.c[a][b]
+    }
+
+    fn neighbours(&self, node: Node) -> &[Node] {
+        self.nb.get(node).map(|v| v.as_slice()).unwrap_or(&[])
+    }
+}
+
 static TIMEOUTS: AtomicUsize = AtomicUsize::new(0);
 
+fn exec_lkh_pts(case: &Value) -> Value {
+    let pts = matrix(&case["pts"]);
+    let c: Vec<Vec<f64>> = pts
+        .iter()
+        .map(|a| pts.iter().map(|b| (((a[0] - b[0]) * (a[0] - b[0]) + (a[1] - b[1]) * (a[1] - b[1])) as f64).sqrt()).collect())
+        .collect();
+    let adjacency = EuclidAdjacency { c, nb: case["nb"].as_array().unwrap().iter().map(usizes).collect() };
+    run_lkh(adjacency, usizes(&case["path"]))
+}
+
 fn exec_lkh(case: &Value) -> Value {
+    let adjacency = Adjacency { c: matrix(&case["c"]), nb: case["nb"].as_array().unwrap().iter().map(usizes).collect() };
+    run_lkh(adjacency, usizes(&case["path"]))
+}
+
+fn run_lkh<A: AdjacencySpec + Send + 'static>(adjacency: A, path: Vec<Node>) -> Value {
     // after three timeouts the remaining LKH cases get one second only (their verdict is then "not run" instead of
     // "timeout"), after ten they are not started: every timed-out call leaves a spinning thread behind
     let timeouts = TIMEOUTS.load(Ordering::SeqCst);
     if timeouts >= 10 {
         return json!({"not_run": true});
     }
-    let adjacency = Adjacency { c: matrix(&case["c"]), nb: case["nb"].as_array().unwrap().iter().map(usizes).collect() };
-    let path = usizes(&case["path"]);
     let limit = Duration::from_secs(if timeouts >= 3 {
         1
     } else if path.len() <= 12 {
@@ -502,6 +572,7 @@ fn exec(case: &Value) -> Value {
             json!({"r": r})
         }
         "lkh" => exec_lkh(case),
+        "lkh_pts" => exec_lkh_pts(case),
         "dbscan" => {
             let n = case["n"].as_u64().unwrap() as usize;
             let ids: Vec<usize> = (0..n).collect();
